@@ -83,6 +83,7 @@ def expand(ts, macros):
         # collect actuals
         depth = 0
         args = [[]]
+        seps = []
         k = 1
         close_hs = None
         while k < len(rest):
@@ -98,6 +99,7 @@ def expand(ts, macros):
                 args[-1].append(tok)
             elif tok[0] == "," and depth == 0:
                 args.append([])
+                seps.append(tok)
             else:
                 args[-1].append(tok)
             k += 1
@@ -114,7 +116,8 @@ def expand(ts, macros):
             va = []
             for j, a in enumerate(args[named:]):
                 if j:
-                    va.append((",", frozenset(), False))
+                    # the variable arguments keep the commas (and the white space before them) that separated them
+                    va.append((",", seps[named + j - 1][1], seps[named + j - 1][2]))
                 va.extend(a)
             actuals = args[:named] + [va]
         else:
@@ -136,7 +139,7 @@ def stringize(arg):
         # white space between the argument's tokens becomes one space; leading white space is dropped
         if i and ws:
             parts.append(" ")
-        if sp.startswith('"'):
+        if sp.startswith('"') or sp.startswith("'"):
             parts.append(sp.replace("\\", "\\\\").replace('"', '\\"'))
         else:
             parts.append(sp)
